@@ -1,0 +1,19 @@
+//go:build verif
+
+package dagidx
+
+// Machine-checked contracts for /verif (read as text by the VC generator; no code).
+// The vector-clock views are read-only: their accessors are pure.
+//
+//@ iface Seq.Seq
+//@   pure
+//@ iface Seq.IsForkDetected
+//@   pure
+//@ iface HighestBeforeSeq.Size
+//@   pure
+//@ iface HighestBeforeSeq.Get
+//@   pure
+//@   ensures result != nil
+//@ iface VectorClock.GetMergedHighestBefore
+//@   pure
+//@   ensures result != nil
